@@ -207,3 +207,26 @@ Proof.
   destruct (Z.eqb_spec mr sr); cbn [negb]; [|reflexivity].
   destruct (Z.eqb_spec mc sc); cbn [negb]; [|reflexivity]. destruct H; contradiction.
 Qed.
+
+(* ---- documented errors of the environment and of mortality ---- *)
+Lemma weather_missing_is_logic_error i w t : w_weather w = None -> weather_at i w t = Err LogicError.
+Proof. intros H. unfold weather_at, mbind, get. rewrite H. reflexivity. Qed.
+
+Lemma temperature_missing_is_logic_error i w t : w_temp w = None -> temperature_at i w t = Err LogicError.
+Proof. intros H. unfold temperature_at, mbind, get. rewrite H. reflexivity. Qed.
+
+(* a suitability outside [0, 1] (total population smaller than the susceptible
+   count) is rejected with invalid_argument *)
+Lemma suitability_out_of_range_rejected g k i w t c hc n :
+  get_cell k i w t = Ok (c, w, t) -> host_cfg g k w t = Ok (hc, w, t) ->
+  total_population_at i w t = Ok (n, w, t) -> n <> 0 -> g_weather g = false -> h_pht hc = None ->
+  (zq (cS c) / zq n < 0 \/ 1 < zq (cS c) / zq n)%Q ->
+  suitability_at g k i w t = Err InvalidArgument.
+Proof.
+  intros Hc Hh Hn Hz Hw Hp Hr. unfold suitability_at, mbind. rewrite Hc, Hh, Hn.
+  destruct (Z.eqb_spec n 0); [contradiction|]. rewrite Hp, Hw. cbn [ret].
+  assert (E : qltb (zq (cS c) / zq n) 0 || qltb 1 (zq (cS c) / zq n) = true).
+  { unfold qltb. apply orb_true_iff. destruct Hr as [H|H]; [left|right]; apply negb_true_iff;
+      destruct (Qle_bool _ _) eqn:Eb; try reflexivity; apply Qle_bool_iff in Eb; exfalso; eapply Qlt_not_le; eauto. }
+  rewrite E. reflexivity.
+Qed.
